@@ -1,6 +1,6 @@
 """C12 — page enumeration is the depth-first order of the page tree (DESIGN §4 C12)."""
 import re
-import safety, scopes, lib
+import safety, scopes, lib, inv
 from mir import op_place, AnchorLost
 
 LEVEL = dict(
@@ -86,18 +86,38 @@ def skeleton_rules(ctx, F):
                    what="after a level is exhausted the iterator does not resume from the popped stack entry")
         ctx.ob(R, "lifo|next", not lib.calls_named(nx, r"Vec::<.*>::(remove|swap_remove|drain|first|insert)$|VecDeque"), "the stack is used LIFO (push/pop only)", nx.where(),
                what="the pending-siblings stack is no longer used last-in-first-out")
-    # depth limit bounds the stack
+    # the pending-siblings stack is bounded: either every push is dominated by `stack.len() < constant`, or every push costs one
+    # unit of the iteration budget (a decrement of iter_limit, itself behind the `iter_limit == 0` exit, on every way round to the
+    # next push), so that the stack cannot outgrow the number of objects
+    import guard
     env_ok = False
+    cut = []
     for p in pushes:
-        import guard
         env = guard.Env(nx)
-        ln = guard.Term("len(*self#1.stack)", 0, (), "usize")
         for fx, _ in env.dominating_edge_facts(p.bb):
             x, y, c = fx
             if x.base and "stack" in x.base and x.base.startswith("len(") and y.base is None and y.off + c <= 4096:
                 env_ok = True
-    ctx.ob("R-GUARD", "stack-depth-limit|next", env_ok, "stack.push is dominated by stack.len() < constant", nx.where(),
-           what="the depth limit on the pending-siblings stack is gone: a deep or cyclic tree grows it without bound")
+    for d in desc:
+        env = guard.Env(nx)
+        for fx, _ in env.dominating_edge_facts(d[0]):
+            x, y, c = fx
+            if x.base and "stack" in x.base and x.base.startswith("len(") and y.base is None:
+                cut.append(y.off + c)
+    decs = [x for x in lib.stores_to_field(nx, "iter_limit", "PageTreeIter") if x[1] != "T" and re.match(r"^Sub\(.*iter_limit,1\)(\.0)?$", nx.rvname(x[2]["rv"], 4))]
+    budget_ok = False
+    if decs and pushes:
+        zero = False
+        for x in decs:
+            gs = inv.rendered_guards(nx, x[0])
+            zero = zero or any((re.match(r"^Eq\(.*iter_limit,0\)$|^Eq\(0,.*iter_limit\)$", g) and not tr) or (re.match(r"^(Ne|Gt)\(.*iter_limit,0\)$", g) and tr) for g, tr in gs)
+        db = [x[0] for x in decs]
+        budget_ok = zero and all(any(nx.dominates(b0, p.bb) for b0 in db) and not nx.can_reach(p.bb, p.bb, avoid=db) for p in pushes)
+    ctx.ob("R-GUARD", "stack-depth-limit|next", env_ok or budget_ok, "stack.push is dominated by stack.len() < constant, or by a unit of the iteration budget on every way round (%s)" % ("budget" if budget_ok else "constant"), nx.where(),
+           what="the pending-siblings stack is not bounded any more: neither a depth limit nor the iteration budget stands between two pushes (a deep or cyclic tree grows it without bound)")
+    # ... and no page is lost to a depth cut-off: descending into a /Pages node does not depend on how deep the stack is
+    ctx.ob("R-GUARD", "no-depth-cutoff|next", not cut, "the descend store does not depend on stack.len()", nx.where(),
+           what="PageTreeIter::next descends into a /Pages node only while fewer than %s levels have pending siblings: a well-formed page tree nested deeper loses every page below the cut, silently" % ((cut[0] + 1) if cut else "?"))
     # iter_limit initialised from objects.len()
     new = F.fn("PageTreeIter::new")
     lits = list(lib.struct_literals(new, "PageTreeIter"))
